@@ -197,6 +197,8 @@ def _corruptions(data, path=()):
                 out.append(("kind", p))
             if k == "__typename" or (isinstance(v, str) and v in ("User", "Bot", "Ghost", "Doc", "Pic")):
                 out.append(("typename", p))
+            elif isinstance(v, (str, int, float, bool)):
+                out.append(("scalar", p))
             out.extend(_corruptions(v, p))
     elif isinstance(data, list):
         for i, v in enumerate(data[:1]):
@@ -219,6 +221,11 @@ def _apply(data, kind, path):
         cur[path[-1]] = "not-a-structure"
     elif kind == "typename":
         cur[path[-1]] = "NotAPossibleType"
+    elif kind == "scalar":
+        # a JSON value of another kind than the one the GraphQL scalar serialises to (String/ID/enum: a number;
+        # Int/Float: a non-numeric string; Boolean: a string)
+        v = cur[path[-1]]
+        cur[path[-1]] = 7 if isinstance(v, str) else ("maybe" if isinstance(v, bool) else "not-a-number")
     return d
 
 
@@ -333,6 +340,13 @@ def check_operation(name, text, snake=True, with_corruptions=True):
                         must_reject = True
                     elif kind == "kind":
                         must_reject = True
+                if kind == "scalar" and t is not None and not isinstance(path[-1], int):
+                    nt = t
+                    while isinstance(nt, (G.GraphQLNonNull, G.GraphQLList)):
+                        nt = nt.of_type
+                    wrapped_in_list = "[" in str(t)
+                    must_reject = not wrapped_in_list and (isinstance(nt, G.GraphQLEnumType) or
+                                                           (isinstance(nt, G.GraphQLScalarType) and nt.name in ("String", "ID", "Int", "Float", "Boolean")))
                 if not must_reject:
                     continue
                 n_corr += 1
